@@ -241,6 +241,19 @@ func c07Check(cs c07Case) core.Outcome {
 		return buf.String(), err, p
 	}
 	out, err, pan := run()
+	if pan == "" && err == nil {
+		// the same configuration restored as a later file of a populated FileSet prints the same text
+		f, _ := c07BuildFile(cs)
+		fr := lateRestorer(decorator.NewRestorerWithImports(local, simple.New(names))).FileRestorer()
+		for p, a := range overrides {
+			fr.Alias[p] = a
+		}
+		var late bytes.Buffer
+		var lerr error
+		if p := guard(func() { lerr = fr.Fprint(&late, f) }); p != "" || lerr != nil || late.String() != out {
+			return fail("print-depends-on-fileset-position", "restored as a later file of a populated FileSet: panic %q error %v\n%s", p, lerr, diffDesc(out, late.String()))
+		}
+	}
 	if pan != "" {
 		return fail("panic:"+short(pan, 60), "restore panicked: %s", pan)
 	}
